@@ -138,6 +138,12 @@ fn check_binding(bytes: &[u8], p: rcgen::CertificateSigningRequestParams) -> Res
 	ispec.is_ca = IsCaSpec::CaUnconstrained;
 	ispec.kid = KidSpec::Pre(Hex(vec![3; 8]));
 	let issuer = mk::cert_params(&ispec)?.self_signed(&issuer_key).map_err(|e| e.to_string())?;
+	let mut p = p;
+	if !cfg!(feature = "crypto") {
+		// no automatic serial without a crypto back end
+		p.params.serial_number = Some(rcgen::SerialNumber::from_slice(&[0x2a]));
+		p.params.key_identifier_method = rcgen::KeyIdMethod::PreSpecified(vec![9]);
+	}
 	let cert = p.signed_by(&issuer, &issuer_key).map_err(|e| format!("signed_by on an accepted request failed: {e}"))?;
 	let (c, _) = decode_cert(cert.der())?;
 	if c.spki.raw != req.spki.raw {
